@@ -7,6 +7,8 @@ use bincode::{Decode, Encode};
 pub use crate::dictionary::connector::dual_connector::DualConnector;
 pub use crate::dictionary::connector::matrix_connector::MatrixConnector;
 pub use crate::dictionary::connector::raw_connector::RawConnector;
+#[cfg(feature = "verif-hooks")]
+pub(crate) use crate::dictionary::connector::raw_connector::scorer as verif_scorer;
 use crate::dictionary::mapper::ConnIdMapper;
 
 pub trait Connector {
